@@ -1315,6 +1315,11 @@ func (m *Model) eval(e *N, sc *Scope) (interface{}, ctl) {
 		if c.s != sNone {
 			return nil, c
 		}
+		if e.Ns[0].K == "addr" {
+			// the address of something is a pointer that is never nil, whatever it points to
+			m.feat("coalesce_left_is_address_of")
+			return a, ok0
+		}
 		if a == nil {
 			return m.eval(e.Ns[1], sc)
 		}
